@@ -200,6 +200,12 @@ func (vm *VirtualMachine) runCodeInternal(ctx context.Context, codeToRun *compil
 	defer func() {
 		if r := recover(); r != nil {
 			err = fmt.Errorf("panic: %v", r)
+			// A run that was halted may panic while it unwinds (a deferred call
+			// that needs a frame when none is left): it still ended because
+			// its context did
+			if cerr := ctx.Err(); cerr != nil {
+				err = cerr
+			}
 		}
 		if err != nil {
 			// A failed run leaves nothing behind that a later invocation
@@ -917,6 +923,11 @@ func (vm *VirtualMachine) Call(
 	defer func() {
 		if r := recover(); r != nil {
 			err = fmt.Errorf("panic: %v", r)
+			// (as in runCodeInternal: a halted call that panics while it
+			// unwinds ended because its context did)
+			if cerr := ctx.Err(); cerr != nil {
+				result, err = nil, cerr
+			}
 		}
 		if err != nil {
 			// A failed call leaves the stack as it found it: a panic that
